@@ -52,7 +52,7 @@ def run(ck, a):
   from brax import kinematics
   from brax.io import mjcf
   thorough = ck.tier == 'thorough'
-  rng = random.Random(800 + ck.seed)
+  rng = random.Random(800)        # the core configurations are fixed (seed independent); VERIF_SEED adds extended configurations below
   words1 = ['h', 's', 'hh', 'ss', 'sh']
   words2 = ['hhh', 'sss', 'ssh']
   cfgs = []
@@ -60,6 +60,10 @@ def run(ck, a):
     for fr_ in (True, False):
       cfgs.append((w, fr_, rng.randrange(8), 1, True))
   cfgs.append(('hh', True, rng.randrange(8), -1, True))
+  if ck.seed:
+    r2 = random.Random(800 + ck.seed)
+    for w in ('h', 'hh', 'sh'):
+      cfgs.append((w, r2.random() < 0.5, r2.randrange(8), r2.choice([1, -1]) if w == 'hh' else 1, False))
   if thorough:
     for w in words2:
       cfgs.append((w, True, rng.randrange(8), 1, False))
